@@ -3,7 +3,7 @@
    `write_ts_with gen_writer_header` is the model writer driven by the header items the real writer
    emits now. *)
 From Coq Require Import ZArith List Bool Ascii String.
-Require Import SkV.Lib.Base SkV.C18.Model SkV.C18.Gen SkV.C18.Bridge SkV.C18.Proofs SkV.C18.History.
+Require Import SkV.Lib.Base SkV.C18.Model SkV.C18.Gen SkV.C18.Bridge SkV.C18.Proofs SkV.C18.History SkV.C18.Alphabet.
 Import ListNotations.
 Open Scope string_scope.
 Open Scope list_scope.
@@ -129,6 +129,57 @@ Theorem C18_split_forms_consistent : forall train test Xtr ytr Xte yte,
     map fst (single_frame (X, y)) = X /\ map snd (single_frame (X, y)) = y.
 Proof. exact split_forms_consistent. Qed.
 Print Assumptions C18_split_forms_consistent.
+
+(* ---- the alphabet of class labels -------------------------------------------------------------- *)
+
+(* a class label may contain every printable ASCII character except ":" and "?" (92 characters, among
+   them # % @ , + - _ . / digits, both letter cases): such labels meet the round-trip hypothesis *)
+Theorem C18_label_alphabet :
+  (forall v, label_in_alphabet v -> lab_ok v) /\
+  forallb label_char alphabet = true /\ List.length alphabet = 92%nat /\
+  forallb (fun n => implb (label_char (ascii_of_N n)) (existsb (Ascii.eqb (ascii_of_N n)) alphabet))
+          (map N.of_nat (seq 0 256)) = true.
+Proof. exact (conj alphabet_lab_ok alphabet_is_label_chars). Qed.
+Print Assumptions C18_label_alphabet.
+
+(* the round trip for ALL labels over that alphabet (mixed case comes back lower-cased) *)
+Theorem C18_ts_roundtrip_label_alphabet : forall o panel vals,
+  name_ok (o_name o) -> o_timestamp o = false -> o_univariate o = true ->
+  (o_equal_length o = true -> o_series_length o <> -1) -> comment_ok (o_comment o) ->
+  o_labels o <> [] -> Forall label_in_alphabet (o_labels o) ->
+  panel <> [] -> Forall row_ok panel ->
+  List.length vals = List.length panel -> Forall label_in_alphabet vals ->
+  exists lines, write_ts_with gen_writer_header o panel vals = Ok lines /\
+    parse_ts lines = Ok (map row1 panel, Some (map lower vals)).
+Proof. exact code_ts_roundtrip_label_alphabet. Qed.
+Print Assumptions C18_ts_roundtrip_label_alphabet.
+
+(* the two excluded characters are delimiters indeed (":" -> rejected, "?" -> NaN substituted), and
+   "#", "%", "@", "," inside a label are not *)
+Theorem C18_excluded_characters_are_delimiters :
+  roundtrip [L "a:b"; L "c"] [L "a:b"; L "c"] = Err /\
+  roundtrip [L "a?"; L "c"] [L "a?"; L "c"] =
+    Ok ([[[L "1"; L "2"]]; [[L "3"; L "4"]]], Some [L "aNaN"; L "c"]) /\
+  roundtrip [L "C#"; L "c"; L "pr#1"; L "x@Data"] [L "C#"; L "c"] =
+    Ok ([[[L "1"; L "2"]]; [[L "3"; L "4"]]], Some [L "c#"; L "c"]) /\
+  roundtrip [L "#"; L "%"] [L "#"; L "%"] =
+    Ok ([[[L "1"; L "2"]]; [[L "3"; L "4"]]], Some [L "#"; L "%"]) /\
+  roundtrip [L "a,b"; L "+-_./"] [L "a,b"; L "+-_./"] =
+    Ok ([[[L "1"; L "2"]]; [[L "3"; L "4"]]], Some [L "a,b"; L "+-_./"]).
+Proof. exact excluded_characters_are_delimiters. Qed.
+Print Assumptions C18_excluded_characters_are_delimiters.
+
+(* sensitivity (regression C18-c): a parser that cuts every line at "#" agrees with the parser on
+   every file without "#", and merges the classes "c#" and "c" of a file the writer wrote *)
+Theorem C18_inline_hash_comment_refuted :
+  (forall lines, Forall (fun l => existsb (Ascii.eqb "#"%char) l = false) lines ->
+     parse_ts_inline_hash lines = parse_ts (map (fun l => rstrip (strip l)) lines)) /\
+  exists lines,
+    write_ts (ex_o [L "c#"; L "c"]) ex_p [L "c#"; L "c"] = Ok lines /\
+    parse_ts lines = Ok ([[[L "1"; L "2"]]; [[L "3"; L "4"]]], Some [L "c#"; L "c"]) /\
+    parse_ts_inline_hash lines = Ok ([[[L "1"; L "2"]]; [[L "3"; L "4"]]], Some [L "c"; L "c"]).
+Proof. exact (conj inline_hash_harmless_without_hash inline_hash_comment_refuted). Qed.
+Print Assumptions C18_inline_hash_comment_refuted.
 
 (* ---- histories of loader calls: "for all bundled datasets and splits", in any order of calls ---- *)
 
